@@ -280,6 +280,7 @@ CELLS = {
     'f0': 0.0, 'fneg': -12.34567, 'f3_0': 3.0,
     's_x': 'x', 's_x_y': 'x y', 's_comma': 'a,b', 's_tab': 'a\tb', 's_q': 'q"r', 's_apos': "it's",
     's_quote': '"', 's_e': u'\xe9', 's_empty': '',
+    's_pad': ' x ',        # blanks at both ends are part of a string value
 }
 for _k, _v in CELLS.items():
     if isinstance(_v, str) and _v != '':
